@@ -73,6 +73,83 @@ def fold_accumulators(fx, res):
     return out
 
 
+def sum64(fx, fid, ob):
+    """D-SUM64: a 64-bit accumulator that starts at a constant < 2^32 and is only ever advanced, inside one `for` loop over a
+    Range<u32> (at most 2^32 iterations), by this addition of a value widened from 32 bits: it stays below 2^32 + 2^32 * (2^32 - 1)
+    < 2^64, so the checked addition cannot overflow.  Returns the justification or None."""
+    import loops as LP
+    from mir import op_const
+    body = body_of(fx.fns[fid])
+    b = ob.get("block")
+    if body is None or b is None:
+        return None
+    t = body.term(b)
+    msg = t.get("msg") or {}
+    if t["k"] != "assert" or msg.get("k") != "Overflow" or msg.get("op") != "Add":
+        return None
+    d = ob["detail"]
+
+    def small(x):
+        iv = x.get("iv") or [None, None]
+        return iv[0] is not None and iv[0] >= 0 and iv[1] <= 0xFFFFFFFF
+    for acc_op, acc_d, other_d in ((msg["a"], d["a"], d["b"]), (msg["b"], d["b"], d["a"])):
+        pl = op_place(acc_op)
+        if pl is None or pl["p"] or not small(other_d) or body.locals[pl["l"]]["ty"] not in ("u64", "usize"):
+            continue
+        l = pl["l"]
+        # the accumulator may be read through a copy: follow single-definition copies back to the variable
+        for _ in range(3):
+            sd = body.single_def(l)
+            if sd is not None and sd[2] == "assign" and sd[3]["k"] == "use" and op_place(sd[3]["a"]) is not None and not op_place(sd[3]["a"])["p"]:
+                l = op_place(sd[3]["a"])["l"]
+            else:
+                break
+        ls = LP.inventory(fx, fid)
+        inner = [L for L in ls if b in L.blocks]
+        if not inner:
+            continue
+        L = min(inner, key=lambda x: len(x.blocks))
+        nb, nt = LP.driver_next_call(body, L, ls)
+        if nt is None:
+            continue
+        rty = nt["args"][0].get("ty") or (op_place(nt["args"][0]) or {}).get("ty") or ""
+        if "Range<u32>" not in rty and "RangeInclusive<u32>" not in rty and "Range<u16>" not in rty and "Range<u8>" not in rty:
+            continue
+        inits, steps, bad = [], [], False
+        for bb in range(body.n):
+            for s_ in body.stmts(bb):
+                if s_["k"] != "assign" or s_["place"]["l"] != l:
+                    continue
+                if s_["place"]["p"]:
+                    bad = True
+                    continue
+                rv = s_["rv"]
+                if bb not in L.blocks and rv["k"] == "use" and op_const(rv["a"]) is not None and 0 <= op_const(rv["a"]) <= 0xFFFFFFFF:
+                    inits.append(bb)
+                elif bb in L.own_blocks(ls) and rv["k"] == "use" and op_place(rv["a"]) is not None:
+                    src = op_place(rv["a"])
+                    # `acc = move tmp.0` with tmp the result of the checked addition asserted in block b
+                    sd = body.single_def(src["l"])
+                    if sd is not None and sd[2] == "assign" and sd[3]["k"] in ("bin", "checked") and sd[3].get("op") in ("Add", "AddWithOverflow") and sd[0] == b:
+                        steps.append(bb)
+                    else:
+                        bad = True
+                else:
+                    bad = True
+            tt = body.term(bb)
+            if tt["k"] == "call" and tt["dest"]["l"] == l:
+                bad = True
+        # no mutable borrow of the accumulator
+        for bb in range(body.n):
+            for s_ in body.stmts(bb):
+                if s_["k"] == "assign" and s_["rv"]["k"] in ("ref", "rawptr") and s_["rv"].get("mut") and s_["rv"]["place"]["l"] == l:
+                    bad = True
+        if bad or len(inits) != 1 or len(steps) != 1:
+            continue
+        return "64-bit accumulator `%s` starts at a constant and is advanced only by this addition of a 32-bit value, once per iteration of a loop over %s: below 2^64" % (body.local_name(l) or "_%d" % l, rty.split("::")[-1])
+    return None
+
+
 def memsize_fns(res, fx=None):
     """functions whose integer results are computed only from constants, lengths of in-memory collections and other such
     functions (in-memory size computations)"""
@@ -355,6 +432,12 @@ class Engine:
             if roots and all(mem_root(r, self.ms, fid, self.fold_acc) for r in roots):
                 chk.ok(rule, key, "D-MEM: operands are in-memory size terms (constants, len(), size functions): bounded by A-MEM", site)
                 chk.assume("A-MEM: the wire size of any in-memory box (sum of len() x element size over its collections) is below 2^63")
+                return
+        # ---- D-SUM64
+        if ob["kind"] == "assert" and ob["what"] == "Overflow(Add)":
+            why = sum64(self.fx, fid, ob)
+            if why:
+                chk.ok(rule, key, "D-SUM64: " + why, site)
                 return
         # ---- accepted invariants with side conditions
         for ai, acc in enumerate(self.accepted):
